@@ -38,6 +38,7 @@ pub fn op_name(op: &Op) -> &'static str {
         Op::SetPolicy(_) => "SetPolicy",
         Op::Drain => "Drain",
         Op::Restart(_) => "Restart",
+        Op::ShrinkSet(_) => "ShrinkSet",
     }
 }
 
@@ -355,6 +356,26 @@ pub fn gen_read_scn(id: &str, rng: &Rng, tier: Tier) -> ReadScn {
         }
         "C04" | "C05" => {
             let fmt = if rng.chance(1, 2) { Fmt::Fasta } else { Fmt::Fastq };
+            if id == "C05" && ((tier == Tier::Thorough && rng.chance(1, 4000)) || rng.chance(1, 150_000)) {
+                // more than 2^16 records / lines: counters must not wrap
+                let k = rng.range(66_000, 70_000);
+                let mut input = Vec::with_capacity(k * 8);
+                for i in 0..k {
+                    match fmt {
+                        Fmt::Fasta => input.extend_from_slice(if i % 7 == 0 { b">a\nC\nG\n" } else { b">a\nC\n" }),
+                        Fmt::Fastq => input.extend_from_slice(b"@a\nC\n+\nI\n"),
+                    }
+                }
+                let cfg = Cfg { cap: rng.range(64, 4096), policy: PolicySpec::Std, script: vec![], cuts: vec![], faults: vec![] };
+                let mut ops = ops_next_to_end(k);
+                // and a few seeks far into the file
+                for _ in 0..6 {
+                    ops.push(Op::SeekRec(rng.range(65_000, k - 1)));
+                    ops.push(Op::Next);
+                    ops.push(Op::Next);
+                }
+                return ReadScn { fmt, input, cfgs: vec![cfg], ops, mon: Monitors::default(), profile: "many_records".into() };
+            }
             let (input, class) = if rng.chance(3, 4) {
                 match fmt {
                     Fmt::Fasta => {
@@ -393,6 +414,10 @@ pub fn gen_read_scn(id: &str, rng: &Rng, tier: Tier) -> ReadScn {
             };
             let len = 1 + rng.small(23);
             let mut ops = gen_history(rng, mix, len, n, rng.chance(1, 2));
+            if rng.chance(1, 8) {
+                let at = rng.below(ops.len() as u64 + 1) as usize;
+                ops.insert(at, Op::ShrinkSet(rng.below(N_SLOTS as u64) as usize));
+            }
             if id == "C04" && rng.chance(1, 6) && n > 1 {
                 // a second reader on (a tail of) the same input, re-using the record sets
                 let at = rng.below(ops.len() as u64 + 1) as usize;
@@ -619,13 +644,13 @@ impl Check for ReadCheck {
         let what = match self.id {
             "C01" => "FASTA inputs (valid multi-record/multi-line LF/CRLF/mixed with blank lines, invalid starts, hostile-alphabet noise, binary, edge strings) x capacity (3..24, record length +-2, input length +-2, large, 64 KiB) x read-chunk script (all-at-once, 1 byte, fixed k, cyclic random with Interrupted) x forced cut offsets at line ends; read via next / records() / into_records() until end was seen repeatedly; every observation compared with the line-splitting reference model",
             "C02" => "FASTQ inputs (valid LF/CRLF/mixed-per-record with 0..5 trailing blank lines, one defect of each kind at a random record index, hostile noise, binary, edge strings) x capacity x chunk script x cuts; compared with the four-line reference model and its accepted-outcome sets",
-            "C04" => "histories of Next / OwnedNext / ReadSet(slot) / ReadSetExact(slot,n) / SeekRec / IterSet over 3 record-set slots, length 1..24 plus optional read-to-end tail, both formats, fault-free, growing policy; cursor model checks every delivered batch, exact counts, unchanged earlier sets",
-            "C05" => "histories rich in seeks to model coordinates of every item (records and the invalid FASTQ group) from every state; position() compared after every returned record and after set reads; reads after a seek compared with the model from the target on",
+            "C04" => "histories of Next / OwnedNext / ReadSet(slot) / ReadSetExact(slot,n) / SeekRec / IterSet / Restart(j) (fresh reader on the tail from record j, record sets kept) over 3 record-set slots, length 1..24 plus optional read-to-end tail, both formats, fault-free, growing policy; cursor model checks every delivered batch, exact counts, unchanged earlier sets",
+            "C05" => "histories rich in seeks to model coordinates of every item (records and the invalid FASTQ group) from every state, one run in four with an injected I/O error (after which a successful seek must restore exact reading again); position() compared after every returned record and after set reads; reads after a seek compared with the model from the target on",
             "C06" => "everything above plus refusing/limited policies, injected source errors on reads and seeks at random call indices, SetPolicy mid-stream, arbitrary continuation after errors and after end, iteration of sets whose fill failed; panic (catch_unwind), per-operation seam-step budget, membership and order of every record handed out",
             "C13" => "accessor relations evaluated on every record handed out (next, owned, record sets) in histories over wild-byte inputs",
-            "C17" => "FASTA: 0..40 leading blank lines then a non-'>' line; FASTQ: valid prefix of 0..8 records plus one defect; capacity placed so the defect lies -3..+3 around a buffer end (or drawn freely); error fields compared with the model, message checked for line, found byte (escape_default), lengths and id",
-            "C19" => "serde_json round trip of every owned record and every freshly filled record set (slots are reused, so stale offsets beyond len() occur) reached by histories",
-            "C20" => "seeded front/back step histories on seq_lines() of every FASTA record handed out against a VecDeque model with len()/size_hint() checked before every step, adaptors enumerate().rev(), enumerate from both ends, skip().rev(), zip().rev(), collect; RecordSetIter size hints and fusedness; RecordsIter/RecordsIntoIter stay at end",
+            "C17" => "FASTA: 0..40 leading blank lines then a non-'>' line (also one starting with CR); FASTQ: valid prefix of 0..8 records plus one defect; one run in six reaches the defect after a refused growth and set_policy(Std); capacity placed so the defect lies -3..+3 around a buffer end (or drawn freely); error fields compared with the model, message checked for line, found byte (escape_default), lengths and id",
+            "C19" => "serde_json round trip of every owned record and of every record set after each set read - freshly filled, or returned from a failed read (refusing policy / injected I/O error in one run of five) or from an end-of-input read; slots are reused, so stale offsets beyond len() occur; a KiB-buffer profile puts sets far from buffer offset 0",
+            "C20" => "seeded histories of next / next_back / nth(k) / nth_back(k) steps on seq_lines() of every FASTA record handed out against a VecDeque model with len()/size_hint() checked before every step, nth/skip overshoot on SeqLines and both RecordSetIters, adaptors enumerate().rev(), enumerate from both ends, skip().rev(), zip().rev(), collect; RecordSetIter size hints and fusedness; RecordsIter/RecordsIntoIter stay at end",
             _ => "",
         };
         format!("{}. A run counts as non-trivial when the reader had to refill, grow, was refused, was interrupted or hit an injected fault; distinct = distinct (input, full seam+outcome event log) hash.", what)
